@@ -1,2 +1,139 @@
+"""C10 — unknown enum values and union variants survive a round trip unless exhaustive."""
+import itertools
+import json
+
+import model as M
+
+
+def enum_names(thorough):
+    alpha = ["A", "Z", "0", "9", "_"]
+    out = []
+    for n in (1, 2, 3) if thorough else (1, 2):
+        for w in itertools.product(alpha, repeat=n):
+            out.append("".join(w))
+    out += ["GREY_5", "ISO_8601", "X__Y", "PANTONE_2_C", "A_", "VERSION_2", "UNKNOWN", "LONGER_NAME_WITH_WORDS_123", "T" * 70]
+    return out
+
+
+ILL_FORMED = ["one", "", " ", "A B", "A-B", "É", "One", "a", "A.B", "A\n", " A", "A "]
+
+PAYLOADS = [None, True, 0, -1.5, -2**63, 2**64 - 1, "NaN", "", "s", [], [1, [2]], {}, {"type": "x"}, {"a": {"b": [None]}}, {"zz": 1}, [None, {"k": "Infinity"}], 1e300]
+
+UNLISTED_VARIANTS = ["zz", "Zz", "zzTop", "z_z", "z-z", "a b", "ünï", "", "V" * 70, "unknownVariant"]
+
+
 def run(a, rep, TypesBuild, tref):
-    rep.cap("not built yet")
+    tb = TypesBuild(a.tier, rep)
+    if not tb.build():
+        return
+    thorough = a.tier == "thorough"
+    only = a.replay_case
+    names = enum_names(thorough)
+    # results per (type, doc) under the non-exhaustive config, to compare listed inputs across configs
+    listed_reser = {}
+    for ci, ch, name, kind, shape, cname, cfg in tb.each_type():
+        if kind not in ("enum", "union"):
+            continue
+        if only and (only.get("type") != name or only.get("config") != cname):
+            continue
+        if kind == "union" and shape is not None and not thorough and shape.depth > 0:
+            continue  # quick: the unions over leaf shapes + the special families
+        model = M.Model(ch["ir"], M.Cfg(cfg["exhaustive"], cfg["serialize_empty"]))
+        t = tref(name)
+        d = model.definition(t)
+        cases = []  # (text, class, expected-name)
+        unk_prefix = "Unknown("
+        if kind == "union" and any(f["fieldName"] == "unknown" for f in d["union"]):
+            unk_prefix = "Unknown_("
+        if kind == "enum":
+            listed = [v["value"] for v in d["values"]]
+            for v in listed:
+                cases.append((json.dumps(v), "listed", v))
+            for n in names:
+                if n not in listed:
+                    cases.append((json.dumps(n), "unlisted", n))
+            for n in ILL_FORMED:
+                cases.append((json.dumps(n), "ill-formed", n))
+        else:
+            variants = [f["fieldName"] for f in d["union"]]
+            for doc in model.docs(t):
+                if model.valid(t, doc) and doc.get("type") in variants:
+                    cases.append((M.dumps(doc), "listed", doc["type"]))
+            for vn in UNLISTED_VARIANTS:
+                if vn in variants or vn == "type":
+                    continue
+                for i, p in enumerate(PAYLOADS if vn == "zz" or thorough else PAYLOADS[:4]):
+                    cases.append(("{\"type\":%s,%s:%s}" % (json.dumps(vn), json.dumps(vn), json.dumps(p)), "unlisted", vn))
+                    if i < 6:
+                        cases.append(("{%s:%s,\"type\":%s}" % (json.dumps(vn), json.dumps(p), json.dumps(vn)), "unlisted", vn))
+        rep.states += len(cases)
+        resp = tb.probe(ci).ask({"ty": "%s:%s" % (cname, name), "op": "de", "docs": [c[0] for c in cases]})
+        if "results" not in resp:
+            rep.cap("probe error for %s: %s" % (name, resp))
+            continue
+        label = "%s:%s" % (kind, name if shape is None else "union{%s}" % shape.text)
+        for (text, cls, nm), res in zip(cases, resp["results"]):
+            for side in ("c", "s", "a"):
+                r = res.get(side)
+                if r is None:
+                    continue
+                rep.evaluations += 1
+                rep.transitions += 1
+                case = {"type": name, "config": cname, "doc": text, "side": side}
+                where = {"c": "client", "s": "server", "a": "any"}[side]
+                sig = lambda k: "C10|%s|%s|%s|%s" % (k, where, label, "exhaustive" if cfg["exhaustive"] else "default")
+                if r.get("panic"):
+                    rep.violation(sig("panic"), "%s panicked on %s" % (label, text), case)
+                    continue
+                if cls == "listed":
+                    if not r["ok"]:
+                        rep.violation(sig("listed-rejected"), "%s [%s]: listed %s is rejected (%s): %s" % (label, cname, text, where, r.get("err")), case)
+                    elif r.get("dbg", "").startswith(unk_prefix) and kind == "enum":
+                        rep.violation(sig("listed-classified-as-unknown"), "%s [%s]: listed value %s is classified as unknown: %s" % (label, cname, text, r.get("dbg")), case)
+                    elif kind == "union" and r.get("dbg", "").startswith(unk_prefix):
+                        rep.violation(sig("listed-classified-as-unknown"), "%s [%s]: listed variant %s is classified as unknown: %s" % (label, cname, text, r.get("dbg")), case)
+                    else:
+                        key = (name, text, side)
+                        if key in listed_reser and listed_reser[key] != r.get("reser") and not _json_eq(listed_reser[key], r.get("reser")) and not cfg["serialize_empty"]:
+                            rep.violation(sig("listed-differs-across-configs"), "%s: %s re-serializes to %s here and to %s under another configuration" % (label, text, r.get("reser"), listed_reser[key]), case)
+                        listed_reser.setdefault(key, r.get("reser"))
+                        rep.outcome("listed:classified-as-itself")
+                elif cls == "ill-formed":
+                    if r["ok"]:
+                        rep.violation(sig("ill-formed-name-accepted"), "%s [%s]: ill-formed enum name %s is accepted (%s) as %s" % (label, cname, text, where, r.get("dbg")), case)
+                    else:
+                        rep.outcome("ill-formed:rejected")
+                else:
+                    if cfg["exhaustive"]:
+                        if r["ok"]:
+                            rep.violation(sig("unlisted-accepted-when-exhaustive"), "%s [%s, exhaustive]: unlisted %s is accepted (%s) as %s" % (label, cname, text, where, r.get("dbg")), case)
+                        else:
+                            rep.outcome("unlisted:rejected-when-exhaustive")
+                        continue
+                    if not r["ok"]:
+                        rep.violation(sig("unlisted-rejected"), "%s [%s]: unlisted but well-formed %s is rejected (%s): %s" % (label, cname, text, where, r.get("err")), case)
+                        continue
+                    want = json.loads(text)
+                    got = json.loads(r["reser"]) if r.get("reser") else None
+                    if not M._any_equal(want, got):
+                        rep.violation(sig("unlisted-not-preserved"), "%s [%s]: %s re-serializes to %s (%s)" % (label, cname, text, r.get("reser"), where), case)
+                    elif not r.get("dbg", "").startswith(unk_prefix):
+                        rep.violation(sig("unlisted-not-classified-unknown"), "%s [%s]: %s is not classified as unknown: %s" % (label, cname, text, r.get("dbg")), case)
+                    elif r.get("name") is not None and r["name"] != nm:
+                        rep.violation(sig("unlisted-name-not-exposed"), "%s [%s]: %s exposes the name %r" % (label, cname, text, r.get("name")), case)
+                    else:
+                        rep.outcome("unlisted:preserved")
+        rep.sample(label, {"type": label, "config": cname, "documents": [c[0] for c in cases[:2]] + [c[0] for c in cases if c[1] == "unlisted"][:3]})
+    tb.close()
+    rep.bounds.update({"enum_names": len(names), "ill_formed_names": len(ILL_FORMED), "payloads": len(PAYLOADS), "unlisted_variant_names": len(UNLISTED_VARIANTS)})
+    rep.rule = ("states = (enum / union type, configuration, document): enums with 1 / 2 / 3 values and unions with 0 / 1 / 2 / 3 variants (incl. one named `unknown`) plus one union per leaf shape; "
+                "inputs = every listed value / variant document, unlisted enum names over [A-Z0-9_] up to the length bound and multi-word names, ill-formed names, unlisted variant names x JSON payloads in both member orders; "
+                "through the client and server deserializers and through `any`, under the default and the exhaustive configuration")
+    rep.assumptions.append("an enum value named UNKNOWN and an empty enum are rejected by the Conjure compiler and are not enumerated")
+
+
+def _json_eq(a, b):
+    try:
+        return M._any_equal(json.loads(a), json.loads(b))
+    except Exception:
+        return False
